@@ -16,7 +16,10 @@ MANIFEST = {
             "(a) every corpus form (thorough: every demo) is JIT-compiled with -Wall -Werror; a family of unsupported constructs "
             "(custom and cut-cell integral types, vertex integrals with discontinuous elements, empty forms, interior-facet integrals "
             "on prisms, expressions with two arguments, codimension 3, sum factorisation without tensor-product elements, facet "
-            "quantities at cell points) must raise a Python exception while a logging CC wrapper records no compiler invocation. "
+            "quantities at cell points, two integration domains with one (type, id), modified Bessel functions, restricted terminals and "
+            "non-linear use of the Argument in expressions) must raise a Python exception while a logging CC wrapper records no compiler "
+            "invocation; a case of that family that IS accepted is not waved through: its kernels are executed by Kernel.tla (InBounds, "
+            "NoDeref) and, for expressions, compared with the exact oracle Fem.tla ('never silently computes something else'). "
             "(c) literal well-formedness is C16's grammar.",
     "design_ref": "DESIGN.md section 4 C19, section 6 F7",
     "note": "Trusted: harness/kexport.py, the CC wrapper (checked by a control compile in every run). Bounded: degrees 0..30, the "
